@@ -42,6 +42,14 @@ Theorem C16_limit_over_refuted : exists n s c, consumer_pos c /\
 Proof. exact limit_over_refuted. Qed.
 Print Assumptions C16_limit_over_refuted.
 
+(* The code before the second fix: LimitReadCloser(src, math.MaxInt64) - the natural "no limit" -
+   panicked on the first Read ([l.N + 1] overflows int64), whatever the source. *)
+Theorem C16_limit_maxint_refuted : exists s c, consumer_pos c /\
+  (Z.of_nat (length (data_of s)) <= max_int64)%Z /\
+  exists cb ca, limit_run Original max_int64 s c None 1 = ([], Some EPanic, cb, ca).
+Proof. exact limit_maxint_refuted. Qed.
+Print Assumptions C16_limit_maxint_refuted.
+
 (* MultiReaderCloser through Read (both variants): concatenation up to the first source that
    does not end with io.EOF and then THAT source's error (a failure that merely wraps io.EOF is
    not the end of a source), EOF only after the last source, every closable source closed exactly
